@@ -1086,6 +1086,7 @@ theorem skeleton_convert_get_format : Xp.Gen.c10SkelConvertGetFormat = skelConve
 theorem skeleton_convert_validate : Xp.Gen.c10SkelConvertValidate = skelConvertValidate := by decide
 theorem skeleton_io_type_is_valid : Xp.Gen.c10SkelIOTypeIsValid = skelIOTypeIsValid := by decide
 theorem skeleton_format_is_valid : Xp.Gen.c10SkelFormatIsValid = skelFormatIsValid := by decide
+theorem skeleton_generate_name : Xp.Gen.c10SkelGenerateName = skelGenerateName := by decide
 theorem skeleton_conversions : Xp.Gen.c10SkelConversions = skelConversions := by rfl
 
 /-- the string values of the API constants the model's `match`es are written against -/
